@@ -12,6 +12,7 @@ import (
 	"os/exec"
 	"path/filepath"
 	"regexp"
+	"runtime"
 	"runtime/debug"
 	"sort"
 	"strconv"
@@ -161,6 +162,7 @@ type checker struct {
 	fastCap     time.Duration
 	slowCap     time.Duration
 	bounds      []string
+	execCap     time.Duration
 }
 
 func main() {
@@ -204,10 +206,23 @@ func cmdCheck(args []string) int {
 	}
 	c := &checker{repo: *repo, verif: *verif, prop: *prop, tier: *tier, knownHits: map[string]bool{}, t0: time.Now()}
 	c.seed, _ = strconv.ParseInt(os.Getenv("VERIF_SEED"), 10, 64)
-	c.fastCap, c.slowCap = 8*time.Second, 90*time.Second
+	c.fastCap, c.slowCap, c.execCap = 8*time.Second, 90*time.Second, 5*time.Minute
 	if *tier == "thorough" {
-		c.fastCap, c.slowCap = 20*time.Second, 600*time.Second
+		c.fastCap, c.slowCap, c.execCap = 20*time.Second, 600*time.Second, 30*time.Minute
 	}
+	debug.SetMemoryLimit(12 << 30)
+	go func() {
+		// memory watchdog: never take the machine down
+		for {
+			time.Sleep(2 * time.Second)
+			var ms runtime.MemStats
+			runtime.ReadMemStats(&ms)
+			if ms.HeapAlloc > 14<<30 {
+				fmt.Printf("INCONCLUSIVE property=%s executor memory above 14 GiB; aborting\n", *prop)
+				os.Exit(3)
+			}
+		}
+	}()
 	code := c.run(*only, *trace, *dump)
 	if !*noEvidence {
 		c.writeEvidence(code)
@@ -358,6 +373,10 @@ func (c *checker) oneRun(r runSpec, pool *solver.Pool, dump string) int {
 	ex := c.ex
 	ex.ResetRun()
 	t0 := time.Now()
+	ex.Deadline = t0.Add(c.execCap)
+	if os.Getenv("SYMGO_PROGRESS") != "" {
+		fmt.Printf("  start %s\n", r)
+	}
 	fn := c.harnessFn(r)
 	args := make([]ssaexec.Value, len(r.Args))
 	for i, a := range r.Args {
